@@ -149,6 +149,7 @@ def ev? : List String → Option Ev
   | ["t.restart"] => some .restart
   | ["t.replay", e] => e.toNat?.map .replay
   | ["t.skip", e] => e.toNat?.map .skip
+  | ["t.fail", e] => e.toNat?.map .fail
   | ["t.delete", f] => f.toNat?.map .delete
   | _ => none
 
@@ -166,6 +167,10 @@ def stepD (st : St) (fs : List String) : St × String :=
     match unhexS db, unhexS meas, ps.mapM pt? with
     | some db, some meas, some pts => (st, unitOut (.rgrp db meas pts))
     | _, _, _ => (st, "bad-op")
+  | ["s.reldir", _, _] =>
+    -- writer and recovery derive their file paths from the same directory string with the same function
+    -- (regenerated fact walDirUsedVerbatim): SkipActiveFile matches however the directory is spelled
+    (st, if Arc.Generated.C05.walDirUsedVerbatim then "active-kept restored=all" else "unknown")
   | "t.new" :: _ => ({}, "ok")
   | ["t.obs"] => (st, obs st)
   | _ =>
